@@ -5,7 +5,7 @@ statement SELECT * of every table and sys_schema, and page dumps, compared with 
 import vlib
 from props import hist
 
-PROP_FILES = ["Properties/C01.v"]
+PROP_FILES = ["Properties/C01.v", "Properties/C01full.v"]
 HARNESS = ["engine"]
 ASSUMPTIONS = [
     "statements are written as SQL text and parsed by the real parser; the model receives the statement tree "
